@@ -335,6 +335,20 @@ def name_wildcard_closure_params(text, log):
     return "".join(out)
 
 
+# ---------------- R14 integer statics
+def exec_statics(text, log):
+    """`static NAME: T = <integer literal>;`  ->  `exec static NAME: T ensures NAME == <literal> { <literal> }`
+    (Verus wants the value of a static stated as an ensures clause)"""
+    n = 0
+    def rep(m):
+        nonlocal n
+        n += 1
+        return "pub exec static %s: %s ensures %s == %s { %s }" % (m.group(2), m.group(3), m.group(2), m.group(4), m.group(4))
+    text = re.sub(r"^(pub(?:\([a-z]+\))? )?static (\w+): (\w+) = ([0-9][0-9_xa-fA-F]*);", rep, text, flags=re.M)
+    log.hit("R14 integer static restated as exec static with ensures", n)
+    return text
+
+
 def apply_all(text, log, refcell=False, keep_vis=False):
     text = resolve_cfg(text, log)
     text = drop_attrs_and_docs(text, log)
@@ -347,4 +361,5 @@ def apply_all(text, log, refcell=False, keep_vis=False):
     text = desugar_enumerate(text, log)
     text = name_wildcard_closure_params(text, log)
     text = opaque_error_text(text, log)
+    text = exec_statics(text, log)
     return text
